@@ -20,7 +20,8 @@ RULE = ('numbers: for every (convention 0-3, justify r/l, charset, spaces yes/no
         'case argument) and sizes (Hypothesis). Non-trivial = a numbers window containing a length or capacity boundary; '
         'a fix/names case where repair or un-repair changes the name; a geometry within 3 of a capacity or with an '
         'atmosphere block or with >= 100 columns; a key case with holes. distinct = distinct case JSON.'
-        ' Also: search call_order = two letter fields (all ordered pairs of convention x kind) asked for the same numbers within one case; right-justified generated geometries are written, re-read with mulgrid(filename) and judged again; random geometries preceded by one of another convention.')
+        ' Also: search call_order = two letter fields (all ordered pairs of convention x kind) asked for the same numbers within one case; right-justified generated geometries are written, re-read with mulgrid(filename) and judged again; random geometries preceded by one of another convention.'
+        ' Rounds 7-10: convention switched through the property on a built geometry and back; surface layer renamed then refine_layers(); columns split until the names run out (fresh name or naming error).')
 ASSUMPTIONS = ['the simulator prints a name through (A3,I2): I2 output is right-justified, blank padded (refs/names_ref.py); '
                'no prediction is made for names whose last two characters are digit+blank, two blanks (ambiguous under '
                'Fortran blank handling) - for names containing a letter there the printed form is taken to be the name itself',
